@@ -125,6 +125,10 @@ def main():
     # vbi_chsw_reset / the NETWORK event?
     f = function_body(rd("caption.c"), "xds_decoder")
     s_nuid_compared = re.search(r"if\s*\(\s*sum\s*!=\s*n->nuid\s*\)", f) is not None
+    # xds_decoder, case 4 (program type): does the block declare its own `int neq`, hiding the one the
+    # "announce on second occurrence" epilogue looks at?
+    m4 = need(re.search(r"case\s+4\s*:", f), "xds_decoder case 4")
+    s_type_shadow = re.search(r"\bint\s+neq\s*;", block_after(f, m4.end())) is not None
 
     text = """-- generated by translate/gen_xds.py from src/xds_demux.[ch], src/cc.h, src/caption.c - do not edit
 namespace Zvbi.Gen.Xds
@@ -161,6 +165,9 @@ def sepErrClearsCurr : Bool := %s
 /-- `xds_decoder`, network name repeated: `vbi_chsw_reset` (which flushes every XDS buffer) and the
     NETWORK event happen only `if (sum != n->nuid)` -/
 def sepNuidCompared : Bool := %s
+/-- `xds_decoder` case 4 (program type) declares a local `int neq` that hides the outer one, so the
+    epilogue never sees a change of the program type -/
+def svcTypeNeqShadowed : Bool := %s
 
 end Zvbi.Gen.Xds
 """ % (d_buf, d_classes, d_sub, d_pkt, d_maxcls, d_guard, d_remap_from, d_remap_add,
@@ -168,7 +175,8 @@ end Zvbi.Gen.Xds
        s_buf, s_classes, s_sub, s_guard,
        "true" if s_fields[-2:] == ["chksum", "buffer"] else "false",
        "true" if s_err_clears else "false",
-       "true" if s_nuid_compared else "false")
+       "true" if s_nuid_compared else "false",
+       "true" if s_type_shadow else "false")
     old = open(OUT).read() if os.path.exists(OUT) else None
     if old != text:
         os.makedirs(os.path.dirname(OUT), exist_ok=True)
